@@ -72,6 +72,8 @@ var Mutants = []Mutant{
 	{ID: "arraylit-layout-late", Props: []string{"C06"}, Rule: "R-LAYOUTKEY", File: "pkg/parser/expression.go", Find: "\tp.formatting.recordMultiline(arrayLit, multi)\n\tif len(elements) == 0 {\n\t\treturn arrayLit\n\t}", Replace: "\tif len(elements) == 0 {\n\t\treturn arrayLit\n\t}\n\tp.formatting.recordMultiline(arrayLit, multi)", Expect: "parseArrayLiteral#new-ArrayLiteral", Describe: "empty array literal returned before its layout is recorded"},
 	{ID: "format-drops-step", Props: []string{"C06"}, Rule: "R-FIELDCOV/format", File: "pkg/parser/format.go", Find: "\tf.format(n.Stop)\n\tif n.Step != nil {\n\t\tf.write(\" \")\n\t\tf.format(n.Step)\n\t}\n", Replace: "\tf.format(n.Stop)\n", Expect: "StepRange.Step#read-by:format", Describe: "the formatter drops the step of a range"},
 	{ID: "compile-drops-else", Props: []string{"C16"}, Rule: "R-FIELDCOV/Compile", File: "pkg/bytecode/compiler.go", Find: "\tif stmt.Else != nil {\n\t\tif err := c.Compile(stmt.Else); err != nil {\n\t\t\treturn err\n\t\t}\n\t}\n", Replace: "", Expect: "IfStmt.Else#read-by:Compile", Describe: "the compiler drops else blocks"},
+	{ID: "typed-decl-colon-unchecked", Props: []string{"C06"}, Rule: "R-BLINDADV", File: "pkg/parser/parser.go", Find: "\tp.advance() // advance past IDENT\n\tp.assertToken(lexer.COLON)\n\tp.advance() // advance past `:`", Replace: "\tp.advance() // advance past IDENT\n\tp.advance() // advance past `:`", Expect: "parseTypedDecl#advance", Describe: "`func f a=num` is accepted and formatted as a:num"},
+	{ID: "loopvar-declare-unchecked", Props: []string{"C06"}, Rule: "R-BLINDADV", File: "pkg/parser/parser.go", Find: "\t\tp.advance() // advance past loopVarName\n\t\tp.assertToken(lexer.DECLARE)\n\t\tp.advance() // advance past :=", Replace: "\t\tp.advance() // advance past loopVarName\n\t\tp.advance() // advance past :=", Expect: "parseForStatement#advance", Describe: "`for i = range 3` is accepted and formatted with :="},
 	// C07
 	{ID: "indent-unbalanced", Props: []string{"C07"}, Rule: "R-INDENTPAIR", File: "pkg/parser/format.go", Find: "\t\tf.writeLn()\n\t}\n\n\tf.indentLevel--\n}", Replace: "\t\tf.writeLn()\n\t}\n}", Expect: "writeStmts#indent-balance", Describe: "writeStmts forgets to decrease the indentation"},
 	{ID: "comment-trimright", Props: []string{"C07"}, Rule: "R-INDENTPAIR", File: "pkg/parser/format.go", Find: "f.write(strings.TrimSpace(c))", Replace: "f.write(strings.TrimRight(c, \" \"))", Expect: "writeComment#trimmed", Describe: "comments keep trailing tabs"},
